@@ -3,26 +3,40 @@
 // MODE 0 (harness_c09_sym): a script of NL lines; the directive at EVERY position is a symbolic draw from the 17-kind
 //   alphabet below (#if 1/0, #ifdef D/U, #ifndef U/D, #elif 1/0, #elifdef D/U, #elifndef U/D, #else, #endif, #define X,
 //   #error e, text marker M); the only assumption is that the script is well nested up to depth DMAX (the property's
-//   precondition) and, per catalogue entry, that the first line kinds lie in the class given by -DP0/-DP1 (the script
-//   space is split across entries by this prefix; every entry keeps all later positions fully symbolic).
+//   precondition; shorter scripts are covered through leading / trailing text lines).
 //   The REAL process_directive and the REAL skip_false_if_block run over it; the oracle is an independent reference
-//   interpreter of C11 6.10.1 (stack of open conditionals: parent active, some group already taken, #else seen).
+//   interpreter of C11 6.10.1 written below (stack of open conditionals: group kept, some group already kept, #else seen).
+//
+//   STEP=1 (the main harness): ONE step of the directive dispatch from an ARBITRARY state the reference allows.
+//     The implementation keeps no stack of conditionals: its whole state between two dispatches is the read position
+//     plus "a skip to the next #elif*/#else/#endif is due".  Invariant (from the reference interpreter): in normal
+//     state at line p the reference meets line p inside a kept group; with a skip due at line p, line p-1 is an
+//     #if*/#elif* of an active conditional that has kept no group so far.  The step starts at a symbolic p in a symbolic
+//     one of the two states, and the harness asserts that it ends at the start of a later line q in a state for which
+//     the invariant holds again, and that the text lines / #define / #error acted upon between p and q are exactly the
+//     reference's.  Line 0 is met at top level, so by induction over the steps every whole run keeps exactly the
+//     reference's lines (the induction is the only part outside the solver; STEP=0 checks it at small NL).
+//   STEP=0: the whole run from line 0 (symbolic execution accumulates the path guards of every skip loop: NL <= 5).
 //
 //   Why this terminates although c09_cond.cxx says symbolic line kinds do not:
 //   (a) the command / argument strings are written straight into the SSO buffer of the caller's fresh std::string
 //       (symbolic content and length <= 8, pointer concrete): no assign/_M_replace/_M_create on a symbolic length;
+//       operator==(string, const char *) is replaced by a branch-free equivalent (the early-exit loops of strlen/memcmp
+//       on a symbolic length make the path guards explode);
 //   (b) skip_false_if_block -> handle_if*_directive -> skip_false_if_block is a recursion whose every level contains a
-//       loop over the rest of the (symbolic) read position: unrolled it has (3 * 2NL)^depth bodies.  The three
+//       loop over the rest of the file from a symbolic read position: unrolled it has (3 * 2NL)^depth bodies.  The three
 //       handle_if/ifdef/ifndef_directive bodies are therefore replaced by their contract "condition false => the call
 //       skip_false_if_block(true) is the last thing that happens" in deferred form: the stub sets `pending` and the
-//       driver loop performs the REAL skip_false_if_block(true) as its next step.  Every call of the three handlers in
-//       the real code is in tail position (process_directive: only `_start_of_line = true; return '\n'` follow, which the
+//       driver performs the REAL skip_false_if_block(true) as its next step.  Every call of the three handlers in the
+//       real code is in tail position (process_directive: only `_start_of_line = true; return '\n'` follow, which the
 //       reader has established already; skip_false_if_block: `return` follows), so the sequence of reads is the same.
 //       MODE 1 below checks that contract on the REAL handlers with the solver.
 //   (c) YYLTYPE / CPPFile bookkeeping (loc.file = get_file()) is cut: it is below the conditional logic and costs more
-//       symbolic execution than the code under test.
-//   The unknown-directive branch of process_directive (string concatenation + warning) is cut without a definition:
-//   the asserting stub proves it unreachable for this alphabet.
+//       symbolic execution than the code under test;
+//   (d) the TUs are lowered without LLVM's optimisation passes (see cat/c09.py: CBMC miscounts the two loops LoopSimplify
+//       makes of the one `while` in skip_false_if_block).
+//   The unknown-directive branch of process_directive (string concatenation + warning) and the handlers of directives
+//   outside the alphabet are cut without a definition: the asserting stubs prove them unreachable for this alphabet.
 //
 // MODE 1 (harness_c09_handle): the REAL handle_if_directive / handle_ifdef_directive / handle_ifndef_directive with a
 //   symbolic choice of handler and argument ("0","1" / "D","U"); skip_false_if_block and the reader are recorders.
@@ -58,26 +72,6 @@ enum Kind {
   K_ELIF_T, K_ELIF_F, K_ELIFDEF_T, K_ELIFDEF_F, K_ELIFNDEF_T, K_ELIFNDEF_F,
   K_ELSE, K_ENDIF, K_DEFINE, K_ERROR, K_MARKER, K_COUNT
 };
-// prefix classes for -DP0 / -DP1 (values >= 100): a class restricts the symbolic kind of that line, a value < K_COUNT
-// fixes it
-#define C_ANY 100
-#define C_OPEN_T 101     // #if 1, #ifdef D, #ifndef U
-#define C_OPEN_F 102     // #if 0, #ifdef U, #ifndef D
-#define C_TEXT 103       // #define, #error, marker
-#define C_OPEN 104
-#define C_ELIF 105       // the six #elif* kinds
-#define C_CLOSE 106      // #else, #endif
-#define C_NOTOPEN 107    // everything but the six opening kinds
-#ifndef P0
-#define P0 C_ANY
-#endif
-#ifndef P1
-#define P1 C_ANY
-#endif
-#ifndef P2
-#define P2 C_ANY
-#endif
-
 static inline bool is_open(int k) { return k <= K_IFNDEF_F; }
 static inline bool is_elif(int k) { return k >= K_ELIF_T && k <= K_ELIFNDEF_F; }
 static inline bool cond_true(int k) { return (k & 1) == 0; }           // the *_T kinds are the even ones
@@ -163,7 +157,8 @@ bool c09_streq(const std::string *a, const char *b) {
   return r;
 }
 #ifndef VERIF_NATIVE
-// loc.file = get_file() and the YYLTYPE / CPPFile special members: nothing below reads loc
+// loc.file = get_file() and the YYLTYPE / CPPFile special members: nothing below reads loc.  (The native replay keeps the
+// real ones: g++ calls the C1/D1 variants anyway, and a by-value return must be a real object there.)
 void c09_yyl_ctor(YYLTYPE *) asm("_ZN10cppyyltypeC2Ev");
 void c09_yyl_ctor(YYLTYPE *) {}
 void c09_yyl_dtor(YYLTYPE *) asm("_ZN10cppyyltypeD2Ev");
@@ -200,20 +195,6 @@ void CPPPreprocessor::handle_ifndef_directive(const std::string &args, const YYL
   cond_result(!(args.size() == 1 && args[0] == 'D'));
 }
 
-static inline bool in_class(int k, int cls) {
-  switch (cls) {
-  case C_ANY: return true;
-  case C_OPEN_T: return is_open(k) && cond_true(k);
-  case C_OPEN_F: return is_open(k) && !cond_true(k);
-  case C_TEXT: return k >= K_DEFINE;
-  case C_OPEN: return is_open(k);
-  case C_ELIF: return is_elif(k);
-  case C_CLOSE: return k == K_ELSE || k == K_ENDIF;
-  case C_NOTOPEN: return !is_open(k);
-  default: return k == cls;
-  }
-}
-
 extern "C" void harness_c09_sym() {
   CPPPreprocessor *pp = new CPPPreprocessor;
 
@@ -223,9 +204,6 @@ extern "C" void harness_c09_sym() {
     ASSUME(k < K_COUNT);
     kind[i] = k;
   }
-  if (P0 < K_COUNT) kind[0] = P0; else ASSUME(in_class(kind[0], P0));
-  if (NL > 1) { if (P1 < K_COUNT) kind[1] = P1; else ASSUME(in_class(kind[1], P1)); }
-  if (NL > 2) { if (P2 < K_COUNT) kind[2] = P2; else ASSUME(in_class(kind[2], P2)); }
 
   // ---- reference interpreter of C11 6.10.1 (and the well-nestedness precondition) ------------------------------------
   // level d (1..DMAX) describes the innermost open conditional at nesting depth d
@@ -311,6 +289,9 @@ extern "C" void harness_c09_sym() {
   ASSERT(surv == (want_surv & window), "C09 the text lines that reach the parser are exactly those in the groups a conforming preprocessor keeps");
   ASSERT(defd == (want_def & window), "C09 #define is acted upon exactly in kept groups");
   ASSERT(errd == (want_err & window), "C09 #error is acted upon exactly in kept groups");
+#ifdef COVER
+  ASSERT(!(COVER), "C09 cover experiment");
+#endif
 #else
   // ---- whole run: the directive dispatch of internal_get_next_token, with the deferred skips --------------------------
   rd_line = 0; rd_phase = 0;
